@@ -144,10 +144,13 @@ type c02Cfg struct {
 	Block      bool   `json:"block_on_overflow"`
 	Wait       bool   `json:"wait_for_result"`
 	Producers  int    `json:"producers"`
-	Steps      int    `json:"steps"`
-	MidShut    bool   `json:"shutdown_mid_run"`
-	Yields     bool   `json:"yield_hooks"`
-	LockYields bool   `json:"lock_site_yields"`
+	// Crowd: more blocking producers than usual in front of a small in-memory queue; the shutdown event is enabled as
+	// soon as three of them wait for space
+	Crowd      bool `json:"crowd_of_blocking_producers,omitempty"`
+	Steps      int  `json:"steps"`
+	MidShut    bool `json:"shutdown_mid_run"`
+	Yields     bool `json:"yield_hooks"`
+	LockYields bool `json:"lock_site_yields"`
 	// ReadFaults: ordinals (1-based) of the persistent queue's item reads that fail with a storage error: the queue
 	// drops such an item (it cannot be handed over), everything else must carry on
 	ReadFaults []int `json:"storage_read_faults,omitempty"`
@@ -185,6 +188,15 @@ func c02Config(tp *simkit.Tape) c02Cfg {
 	c.MidShut = tp.Chance(1, 6)
 	c.Yields = c.Block && tp.Chance(2, 3)
 	c.LockYields = tp.Chance(1, 2)
+	if !c.Persistent && c.Block && tp.Chance(1, 4) {
+		// a crowd: more blocking producers than usual in front of a small in-memory queue, often shut down mid-run
+		c.Crowd = true
+		c.Producers += tp.Range(1, 4)
+		if tp.Chance(1, 2) {
+			c.Cap = int64(tp.Range(1, 2))
+		}
+		c.MidShut = c.MidShut || tp.Chance(1, 2)
+	}
 	if c.Persistent && c.Producers == 1 && tp.Chance(1, 2) {
 		n := tp.Range(1, 2)
 		for i := 0; i < n; i++ {
@@ -406,8 +418,18 @@ func runC02(r *simkit.Run) {
 			id := id
 			ch = append(ch, simkit.Choice{Name: "release:" + id, W: 2, Fire: func() { s.release(id) }})
 		}
-		if cfg.MidShut && !shutFired && step > cfg.Steps/2 {
-			ch = append(ch, simkit.Choice{Name: "shutdown", W: 1, Fire: func() {
+		waitingForSpace := 0
+		for _, p := range s.prods {
+			if p.req != nil && !p.task.Done() && p.lastSite == "cond.wait" && !p.cancelled {
+				waitingForSpace++
+			}
+		}
+		if cfg.MidShut && !shutFired && (step > cfg.Steps/2 || cfg.Crowd && waitingForSpace >= 3) {
+			w := 1
+			if cfg.Crowd && waitingForSpace >= 3 {
+				w = 3
+			}
+			ch = append(ch, simkit.Choice{Name: "shutdown", W: w, Fire: func() {
 				shutFired = true
 				r.Count("event.shutdown_mid_run")
 				s.startShutdown()
@@ -463,6 +485,15 @@ func runC02(r *simkit.Run) {
 }
 
 func (s *c02Sim) startShutdown() {
+	nb := 0
+	for _, p := range s.prods {
+		if p.req != nil && !p.task.Done() && p.lastSite == "cond.wait" && !p.cancelled {
+			nb++
+		}
+	}
+	if nb > 0 {
+		s.r.Count(fmt.Sprintf("probe.shutdown_with_%d_producers_blocked_for_space", min(nb, 5)))
+	}
 	s.shut = simkit.Go("shutdown", func(t *simkit.Task) { t.Err = s.qb.Shutdown(context.Background()) })
 	for _, q := range s.reqs {
 		// The exactly-once clause is about a running queue. A request not yet admitted when shutdown is requested
@@ -911,6 +942,16 @@ func (s *c02Sim) observe(ev string) {
 			}
 		}
 	}
+	// 5b. the same once Shutdown has returned: a stopped in-memory queue releases the producers that wait for space, and
+	// those it did not release at once are released by the completions of the drain; with every accepted request finished
+	// (the gauges are gone by then: the model's size), nothing in flight and nothing parked nobody may still be waiting
+	if s.shut != nil && s.shut.Done() && !cfg.Persistent && s.size == 0 && len(s.yg.Parked()) == 0 && len(s.gate.Parked()) == 0 {
+		for _, p := range s.prods {
+			if p.req != nil && !p.task.Done() && p.lastSite == "cond.wait" && !p.cancelled && p.req.size <= cfg.Cap {
+				r.Failf("lost-wakeup", "blocked-on-empty-after-shutdown", "producer p%d still blocked for space (r%03d size %d) although the queue was shut down, has drained and is empty", p.id, p.req.id, p.req.size)
+			}
+		}
+	}
 	// 6. a single waiter is released by the completion that frees enough space for it
 	if strings.HasPrefix(ev, "done-") && s.soleWaiter != nil && s.shut == nil && len(s.yg.Parked()) == 0 {
 		p := s.soleWaiter
@@ -972,5 +1013,5 @@ var HarnessC02 = simkit.Harness{
 	Prop: "C02", Name: "exp/c02", Run: runC02, StepTimeout: 6e9,
 	Real: []string{"queuebatch.QueueBatch (obsQueue, asyncQueue, memoryQueue, persistentQueue, cond, disabledBatcher)", "OTel metrics SDK (manual reader) for the size/capacity gauges"},
 	Stub: []string{"request type with tape-chosen sizes", "export function (parks until the scheduler answers)", "storage extension (simdisk; optional injected read errors on the persistent queue's item reads, no crashes in C02)"},
-	Rule: "one run = one tape-drawn configuration (queue kind, sizer, capacity, consumers, block_on_overflow, wait_for_result, producers, yield sites) and one event schedule (offer / backend answer ok|err / producer cancellation / yield release / shutdown), stepped one event per quiescence; distinct = distinct hash of the named event log; non-trivial = at least one producer was blocked for space or >=2 exports were in flight at some step",
+	Rule: "one run = one tape-drawn configuration (queue kind, sizer, capacity, consumers, block_on_overflow, wait_for_result, producers, yield sites) and one event schedule (offer / backend answer ok|err / producer cancellation / yield release / shutdown), stepped one event per quiescence; 1 blocking in-memory run in 4 is a crowd (up to 8 producers in front of a small queue, the shutdown event enabled as soon as three of them wait for space; once Shutdown has returned and the accepted requests have finished nobody may still wait); distinct = distinct hash of the named event log; non-trivial = at least one producer was blocked for space or >=2 exports were in flight at some step",
 }
